@@ -651,6 +651,15 @@ class RequestHandler(BaseProtocol, Generic[_Request]):
                     request.remote,
                     exc_info=exc.__cause__,
                 )
+            # some data already got sent, connection is broken
+            if request.writer.output_size > 0:
+                self.log_exception(
+                    "Error handling request from %s", request.remote, exc_info=exc
+                )
+                raise ConnectionError(
+                    "Response is sent already, cannot send another response "
+                    "with the error message"
+                )
             resp = Response(
                 status=exc.status, reason=exc.reason, text=exc.text, headers=exc.headers
             )
